@@ -1,5 +1,8 @@
 """C05 -- wire fast path and decoded path are observationally equivalent (Serve.tla)."""
+import os
+
 import serve_common as sc
+import x06rl
 
 
 def run(ctx, replay):
@@ -13,3 +16,12 @@ def run(ctx, replay):
     sc.run_family_models(ctx, sc.FAMILIES, thorough)
     sc.regression_model(ctx)
     sc.replay(ctx, "C05", sc.FAMILIES, num=400 if not thorough else 5000, variants=2 if not thorough else 4)
+    # the side effects both paths must agree on, as a state machine (RateLimit.tla): one token per question whatever entry
+    # serves it (wire, decoded, inline pass then replay), client limiter and per-entry cache limiter alike; the same
+    # history through ServeMsg only gives the same outcome
+    x06rl.C06_ONLY = False
+    ctx.overlay_tags.add("x06rl")
+    ov = os.path.join(ctx.scratch, "overlay.json")
+    if os.path.exists(ov):
+        os.remove(ov)
+    x06rl.run_tier(ctx)
